@@ -52,27 +52,6 @@ end Gengo.Pipeline
 
 namespace Gengo.TypeRef
 
-/-- `ParseRef` / `PkgImportPathAndExpose`: both cut at the last `.` before the first `[` -/
-def cutIndex (s : Str) : Option Nat :=
-  let base := match indexOf? '[' s with
-    | some i => if i > 0 then s.take i else s
-    | none => s
-  match lastIndexOf? '.' base with
-  | some i => if i > 0 then some i else none
-  | none => none
-
-/-- `ParseRef`: package path and the *whole* rest (type arguments included) -/
-def parseRef (s : Str) : Option (Str × Str) := (cutIndex s).map fun i => (s.take i, s.drop (i + 1))
-
-/-- `PkgImportPathAndExpose` without the `/vendor/` cut: package path and bare name -/
-def pathAndExpose (s : Str) : Str × Str :=
-  let base := match indexOf? '[' s with
-    | some i => if i > 0 then s.take i else s
-    | none => s
-  match lastIndexOf? '.' base with
-  | some i => if i > 0 then (base.take i, base.drop (i + 1)) else ([], base)
-  | none => ([], base)
-
 theorem indexOf?_lt (c : Char) (l : Str) (k : Nat) (h : indexOf? c l = some k) : k < l.length := by
   induction l generalizing k with
   | nil => simp [indexOf?] at h
@@ -92,12 +71,6 @@ theorem lastIndexOf?_lt (c : Char) (l : Str) (i : Nat) (h : lastIndexOf? c l = s
   have := indexOf?_lt c l.reverse k hk
   simp at this
   omega
-
-/-- the part of `s` both functions look at: everything before the first `[` (at an index > 0) -/
-def baseOf (s : Str) : Str :=
-  match indexOf? '[' s with
-  | some i => if i > 0 then s.take i else s
-  | none => s
 
 theorem baseOf_prefix (s : Str) : ∃ rest, s = baseOf s ++ rest := by
   unfold baseOf
